@@ -114,7 +114,9 @@ func (r Relation) ArrayEnumerator() ValueEnumerator {
 }
 
 func (r Relation) With(v Value) Set {
-	if t, is := v.(Tuple); is && r.attrs.EqualTupleAttrs(t) {
+	// A tuple that belongs to another bucket (e.g. a char tuple of the same
+	// heading) must not be stored as a row: it would not be found there again.
+	if t, is := v.(Tuple); is && r.attrs.EqualTupleAttrs(t) && v.getBucket().String() == r.unionSetSubsetBucket() {
 		return newRelation(r.attrs, r.p, r.rows.With(r.tupleToValues(t)))
 	}
 	return toUnionSetWithItem(r, v)
